@@ -2,7 +2,49 @@
 
 package redisemu
 
-// C02 — string and counter commands.
+// C02 — string and counter commands behave as Redis 7 (t_string.c).
+// Every harness drives the real dispatcher (grammar parser, handler, store)
+// with symbolic values and compares replies and resulting values with a
+// short reference model.
+
+const (
+	preAbsent = iota
+	preString
+	preList
+	preHash
+	preSet
+)
+
+// vSeed puts key k into one of the five type states using real commands.
+// For preString the value is val.
+func vSeed(cs *clientState, k string, kind int, val string) {
+	switch kind {
+	case preString:
+		vCmd(cs, "SET", k, val)
+	case preList:
+		vCmd(cs, "RPUSH", k, "e1", "e2")
+	case preHash:
+		vCmd(cs, "HSET", k, "f1", "v1")
+	case preSet:
+		vCmd(cs, "SADD", k, "m1")
+	}
+}
+
+// vTTLState: -2 missing, -1 no expiry, 1 has expiry.
+func vTTLState(cs *clientState, k string) int64 {
+	r := vCmd(cs, "PTTL", k)
+	n, _ := vIntOf(r)
+	if n >= 0 {
+		return 1
+	}
+	return n
+}
+
+func vTypeOf(cs *clientState, k string) string {
+	r := vCmd(cs, "TYPE", k)
+	s, _ := r.data.(respSimpleString)
+	return string(s)
+}
 
 // VerifH_c02_smoke: SET then GET returns the same bytes (binary safe).
 func VerifH_c02_smoke() {
@@ -13,5 +55,485 @@ func VerifH_c02_smoke() {
 	vAssert("set-ok", vIsOK(r))
 	g := vCmd(cs, "GET", "k")
 	vAssert("get-eq", vIsBulk(g, val))
+	vObserve("val", val)
 	vReach("nonempty", len(val) == 3)
+}
+
+// VerifH_c02_set: SET with NX|XX, GET, KEEPTTL against setGenericCommand.
+func VerifH_c02_set() {
+	VerifSetup()
+	cs := vNewClient()
+	kind := vChoice("kind", 5)
+	old := vString("old", 2)
+	vSeed(cs, "k", kind, old)
+	hadTTL := false
+	if kind != preAbsent && vBool("ttl") {
+		vCmd(cs, "EXPIRE", "k", "1000")
+		hadTTL = true
+	}
+	nv := vString("new", 2)
+	cond := vChoice("cond", 3) // 0 none, 1 NX, 2 XX
+	get := vBool("get")
+	keep := vBool("keepttl")
+	upper := vBool("upper")
+	args := []string{"SET", "k", nv}
+	if cond == 1 {
+		if upper {
+			args = append(args, "NX")
+		} else {
+			args = append(args, "nx")
+		}
+	} else if cond == 2 {
+		args = append(args, "XX")
+	}
+	if get {
+		if upper {
+			args = append(args, "GET")
+		} else {
+			args = append(args, "Get")
+		}
+	}
+	if keep {
+		args = append(args, "KEEPTTL")
+	}
+	r := vCmd(cs, args...)
+
+	exists := kind != preAbsent
+	// reference (setGenericCommand / getGenericCommand)
+	if get && exists && kind != preString {
+		vAssert("set-get-wrongtype", vIsErr(r))
+		vAssert("set-get-wrongtype-inert", vTypeOf(cs, "k") != "string")
+		return
+	}
+	written := !(cond == 1 && exists) && !(cond == 2 && !exists)
+	if get {
+		if kind == preString {
+			vAssert("set-get-old", vIsBulk(r, old))
+		} else {
+			vAssert("set-get-nil", vIsNil(r))
+		}
+	} else if written {
+		vAssert("set-ok", vIsOK(r))
+	} else {
+		vAssert("set-notwritten-nil", vIsNil(r))
+	}
+	g := vCmd(cs, "GET", "k")
+	if written {
+		vAssert("set-value", vIsBulk(g, nv))
+		wantTTL := int64(-1)
+		if keep && hadTTL {
+			wantTTL = 1
+		}
+		vAssert("set-ttl", vTTLState(cs, "k") == wantTTL)
+	} else {
+		switch kind {
+		case preAbsent:
+			vAssert("set-xx-missing-stays-missing", vIsNil(g))
+		case preString:
+			vAssert("set-nx-keeps-old", vIsBulk(g, old))
+		default:
+			vAssert("set-nx-keeps-type", vIsErr(g))
+		}
+		if exists {
+			want := int64(-1)
+			if hadTTL {
+				want = 1
+			}
+			vAssert("set-notwritten-ttl", vTTLState(cs, "k") == want)
+		}
+	}
+	vReach("set-nx-blocked", cond == 1 && exists)
+	vReach("set-written-keepttl", written && keep && hadTTL)
+}
+
+// VerifH_c02_family: SETNX, GETSET, GETDEL, APPEND, STRLEN on every key type.
+func VerifH_c02_family() {
+	VerifSetup()
+	cs := vNewClient()
+	kind := vChoice("kind", 5)
+	old := vString("old", 2)
+	vSeed(cs, "k", kind, old)
+	nv := vString("new", 2)
+	exists := kind != preAbsent
+	upper := vBool("upper")
+	switch vChoice("cmd", 5) {
+	case 0: // SETNX: 1 if set, 0 if the key exists (any type)
+		name := "setnx"
+		if upper {
+			name = "SETNX"
+		}
+		r := vCmd(cs, name, "k", nv)
+		if exists {
+			vAssert("setnx-exists-0", vIsInt(r, 0))
+			if kind == preString {
+				vAssert("setnx-keeps", vIsBulk(vCmd(cs, "GET", "k"), old))
+			} else {
+				vAssert("setnx-keeps-type", vTypeOf(cs, "k") != "string")
+			}
+		} else {
+			vAssert("setnx-new-1", vIsInt(r, 1))
+			vAssert("setnx-value", vIsBulk(vCmd(cs, "GET", "k"), nv))
+		}
+	case 1: // GETSET
+		r := vCmd(cs, "GETSET", "k", nv)
+		if exists && kind != preString {
+			vAssert("getset-wrongtype", vIsErr(r))
+			vAssert("getset-wrongtype-inert", vTypeOf(cs, "k") != "string")
+		} else {
+			if exists {
+				vAssert("getset-old", vIsBulk(r, old))
+			} else {
+				vAssert("getset-nil", vIsNil(r))
+			}
+			vAssert("getset-value", vIsBulk(vCmd(cs, "GET", "k"), nv))
+		}
+	case 2: // GETDEL
+		r := vCmd(cs, "GETDEL", "k")
+		if exists && kind != preString {
+			vAssert("getdel-wrongtype", vIsErr(r))
+			vAssert("getdel-wrongtype-inert", vIsInt(vCmd(cs, "EXISTS", "k"), 1))
+		} else {
+			if exists {
+				vAssert("getdel-old", vIsBulk(r, old))
+			} else {
+				vAssert("getdel-nil", vIsNil(r))
+			}
+			vAssert("getdel-gone", vIsInt(vCmd(cs, "EXISTS", "k"), 0))
+		}
+	case 3: // APPEND
+		r := vCmd(cs, "APPEND", "k", nv)
+		if exists && kind != preString {
+			vAssert("append-wrongtype", vIsErr(r))
+			vAssert("append-wrongtype-inert", vTypeOf(cs, "k") != "string")
+		} else {
+			want := nv
+			if exists {
+				want = old + nv
+			}
+			vAssert("append-len", vIsInt(r, int64(len(want))))
+			vAssert("append-value", vIsBulk(vCmd(cs, "GET", "k"), want))
+		}
+	case 4: // STRLEN
+		r := vCmd(cs, "STRLEN", "k")
+		if exists && kind != preString {
+			vAssert("strlen-wrongtype", vIsErr(r))
+		} else if exists {
+			vAssert("strlen-len", vIsInt(r, int64(len(old))))
+		} else {
+			vAssert("strlen-missing-0", vIsInt(r, 0))
+		}
+	}
+}
+
+// VerifH_c02_mset: MSET / MSETNX / MGET; MSETNX is all-or-nothing.
+func VerifH_c02_mset() {
+	VerifSetup()
+	cs := vNewClient()
+	// pre-state of k2 decides whether MSETNX may write
+	kind2 := vChoice("kind2", 3) // absent, string, list
+	old2 := vString("old2", 1)
+	switch kind2 {
+	case 1:
+		vCmd(cs, "SET", "k2", old2)
+	case 2:
+		vCmd(cs, "RPUSH", "k2", "e")
+	}
+	v1 := vString("v1", 1)
+	v2 := vString("v2", 1)
+	nx := vBool("nx")
+	upper := vBool("upper")
+	name := "MSET"
+	if nx {
+		if upper {
+			name = "MSETNX"
+		} else {
+			name = "msetnx"
+		}
+	}
+	sameKey := vBool("samekey") // MSET k1 a k1 b: last wins
+	kb := "k2"
+	if sameKey {
+		kb = "k1"
+	}
+	r := vCmd(cs, name, "k1", v1, kb, v2)
+	blocked := nx && !sameKey && kind2 != 0
+	if nx {
+		if blocked {
+			vAssert("msetnx-0", vIsInt(r, 0))
+		} else {
+			vAssert("msetnx-1", vIsInt(r, 1))
+		}
+	} else {
+		vAssert("mset-ok", vIsOK(r))
+	}
+	m := vCmd(cs, "MGET", "k1", "k2", "nokey")
+	a, ok := vArrayOf(m)
+	vAssert("mget-shape", ok && len(a) == 3)
+	if !ok || len(a) != 3 {
+		return
+	}
+	vAssert("mget-missing-nil", vIsNil(a[2]))
+	if blocked {
+		// nothing at all may have been written
+		vAssert("msetnx-none-k1", vIsNil(a[0]))
+		if kind2 == 1 {
+			vAssert("msetnx-none-k2", vIsBulk(a[1], old2))
+		} else {
+			vAssert("msetnx-none-k2-list", vIsNil(a[1]) && vTypeOf(cs, "k2") == "list")
+		}
+	} else if sameKey {
+		vAssert("mset-last-wins", vIsBulk(a[0], v2))
+	} else {
+		vAssert("mset-k1", vIsBulk(a[0], v1))
+		vAssert("mset-k2", vIsBulk(a[1], v2))
+	}
+	vReach("msetnx-blocked", blocked)
+}
+
+// refCanonInt recognises Redis' string2ll for texts of up to 3 bytes.
+func refCanonInt(s string) (int64, bool) {
+	isDigit := func(c byte) bool { return c >= '0' && c <= '9' }
+	switch len(s) {
+	case 1:
+		if isDigit(s[0]) {
+			return int64(s[0] - '0'), true
+		}
+	case 2:
+		if s[0] == '-' && s[1] >= '1' && s[1] <= '9' {
+			return -int64(s[1] - '0'), true
+		}
+		if s[0] >= '1' && s[0] <= '9' && isDigit(s[1]) {
+			return int64(s[0]-'0')*10 + int64(s[1]-'0'), true
+		}
+	}
+	return 0, false
+}
+
+// VerifH_c02_counter: INCR/DECR/INCRBY/DECRBY for all int64 old values and
+// deltas (exact overflow), non-integers, and wrong types.
+func VerifH_c02_counter() {
+	VerifSetup()
+	cs := vNewClient()
+	pre := vChoice("pre", 4) // 0 absent, 1 canonical decimal, 2 short arbitrary text, 3 list
+	var p int64
+	var old string
+	isInt := true
+	switch pre {
+	case 1:
+		old = vDecimal("p")
+		p = vDecimalOf(old)
+		vCmd(cs, "SET", "k", old)
+	case 2:
+		old = vString("s", 2)
+		p, isInt = refCanonInt(old)
+		vCmd(cs, "SET", "k", old)
+	case 3:
+		vCmd(cs, "RPUSH", "k", "1")
+	}
+	withTTL := false
+	if (pre == 1 || pre == 2) && vBool("ttl") {
+		vCmd(cs, "EXPIRE", "k", "1000")
+		withTTL = true
+	}
+	var d int64
+	var r respValue
+	negOverflow := false
+	switch vChoice("cmd", 4) {
+	case 0:
+		d = 1
+		r = vCmd(cs, "INCR", "k")
+	case 1:
+		d = -1
+		r = vCmd(cs, "DECR", "k")
+	case 2:
+		ds := vDecimal("d")
+		d = vDecimalOf(ds)
+		r = vCmd(cs, "INCRBY", "k", ds)
+	case 3:
+		ds := vDecimal("d")
+		dd := vDecimalOf(ds)
+		// Redis rejects DECRBY LLONG_MIN ("decrement would overflow")
+		negOverflow = dd == -9223372036854775808
+		d = -dd
+		r = vCmd(cs, "DECRBY", "k", ds)
+	}
+	if pre == 3 {
+		vAssert("counter-wrongtype", vIsErr(r))
+		vAssert("counter-wrongtype-inert", vTypeOf(cs, "k") == "list")
+		return
+	}
+	sum := p + d
+	overflow := ((p^sum)&(d^sum)) < 0 || negOverflow
+	g := vCmd(cs, "GET", "k")
+	if !isInt {
+		vAssert("counter-nonint-error", vIsErr(r))
+		vAssert("counter-nonint-unchanged", vIsBulk(g, old))
+		return
+	}
+	if overflow {
+		vAssert("counter-overflow-error", vIsErr(r))
+		if pre == 0 {
+			vAssert("counter-overflow-still-missing", vIsNil(g))
+		} else {
+			vAssert("counter-overflow-unchanged", vIsBulk(g, old))
+		}
+	} else {
+		vAssert("counter-reply", vIsInt(r, sum))
+		gs, isBulk := vBulkOf(g)
+		vAssert("counter-stored-bulk", isBulk)
+		if isBulk {
+			vAssert("counter-stored", vIsDecimal(gs) && vDecimalOf(gs) == sum)
+		}
+		if withTTL {
+			vAssert("counter-keeps-ttl", vTTLState(cs, "k") == 1)
+		}
+	}
+	vReach("counter-overflow-pos", overflow && d > 0 && pre == 1)
+	vReach("counter-overflow-neg", overflow && d < 0 && pre == 1)
+	vReach("counter-ok", !overflow && pre == 1)
+}
+
+// refGetRange is getrangeCommand of Redis 7.0.
+func refGetRange(n int, start, end int64) (lo, hi int64, empty bool) {
+	strlen := int64(n)
+	if start < 0 && end < 0 && start > end {
+		return 0, 0, true
+	}
+	if start < 0 {
+		start = strlen + start
+	}
+	if end < 0 {
+		end = strlen + end
+	}
+	if start < 0 {
+		start = 0
+	}
+	if end < 0 {
+		end = 0
+	}
+	if end >= strlen {
+		end = strlen - 1
+	}
+	if start > end || strlen == 0 {
+		return 0, 0, true
+	}
+	return start, end, false
+}
+
+// VerifH_c02_getrange: GETRANGE / SUBSTR for all int64 start/end.
+func VerifH_c02_getrange() {
+	VerifSetup()
+	cs := vNewClient()
+	kind := vChoice("kind", 3) // absent, string, list
+	s := vString("s", 3)
+	switch kind {
+	case 1:
+		vCmd(cs, "SET", "k", s)
+	case 2:
+		vCmd(cs, "RPUSH", "k", "e")
+	}
+	ss, es := vDecimal("start"), vDecimal("end")
+	start, end := vDecimalOf(ss), vDecimalOf(es)
+	name := "GETRANGE"
+	if vBool("substr") {
+		name = "SUBSTR"
+	}
+	var r respValue
+	panicked, msg := vCatch(func() { r = vCmd(cs, name, "k", ss, es) })
+	vAssert("getrange-no-panic", !panicked)
+	if panicked {
+		vNote(msg)
+		return
+	}
+	switch kind {
+	case 0:
+		vAssert("getrange-missing-empty", vIsBulk(r, ""))
+	case 2:
+		vAssert("getrange-wrongtype", vIsErr(r))
+	case 1:
+		lo, hi, empty := refGetRange(len(s), start, end)
+		got, ok := vBulkOf(r)
+		vAssert("getrange-bulk", ok)
+		if !ok {
+			return
+		}
+		if empty {
+			vAssert("getrange-empty", len(got) == 0)
+		} else {
+			// lo, hi are symbolic in general: compare lengths, then bytes
+			vAssert("getrange-len", int64(len(got)) == hi-lo+1)
+			okBytes := true
+			for i := 0; i < len(got); i++ {
+				j := lo + int64(i)
+				if j >= 0 && j < int64(len(s)) {
+					okBytes = okBytes && got[i] == s[j]
+				} else {
+					okBytes = false
+				}
+			}
+			vAssert("getrange-bytes", okBytes)
+		}
+		vReach("getrange-negative-end-clamped", end < -int64(len(s)) && start == 0 && len(s) == 3)
+	}
+}
+
+// VerifH_c02_setrange: SETRANGE for all int64 offsets (bounded growth).
+func VerifH_c02_setrange() {
+	VerifSetup()
+	cs := vNewClient()
+	kind := vChoice("kind", 3) // absent, string, list
+	s := vString("s", 3)
+	switch kind {
+	case 1:
+		vCmd(cs, "SET", "k", s)
+	case 2:
+		vCmd(cs, "RPUSH", "k", "e")
+	}
+	if kind == 0 {
+		s = ""
+	}
+	sub := vString("sub", 2)
+	os := vDecimal("off")
+	off := vDecimalOf(os)
+	// growth bound of this harness: offsets above 6 only for the error paths
+	vAssume(off <= 6 || off > 536870911)
+	var r respValue
+	panicked, msg := vCatch(func() { r = vCmd(cs, "SETRANGE", "k", os, sub) })
+	vAssert("setrange-no-panic", !panicked)
+	if panicked {
+		vNote(msg)
+		return
+	}
+	if off < 0 {
+		vAssert("setrange-negative-error", vIsErr(r))
+		return
+	}
+	if kind == 2 {
+		vAssert("setrange-wrongtype", vIsErr(r))
+		return
+	}
+	if len(sub) == 0 {
+		// nothing to write: reply is the current length, key not created
+		vAssert("setrange-empty-len", vIsInt(r, int64(len(s))))
+		if kind == 0 {
+			vAssert("setrange-empty-no-create", vIsInt(vCmd(cs, "EXISTS", "k"), 0))
+		}
+		return
+	}
+	if off > 512*1024*1024-int64(len(sub)) {
+		vAssert("setrange-too-big-error", vIsErr(r))
+		return
+	}
+	// reference result
+	o := int(off)
+	n := len(s)
+	if o+len(sub) > n {
+		n = o + len(sub)
+	}
+	want := make([]byte, n)
+	copy(want, s)
+	copy(want[o:], sub)
+	vAssert("setrange-len", vIsInt(r, int64(n)))
+	vAssert("setrange-value", vIsBulk(vCmd(cs, "GET", "k"), string(want)))
+	vReach("setrange-pad", o > len(s))
 }
